@@ -12,7 +12,6 @@ TABLE = {
     'm_c04_floor_stride': ['C04'],
     'm_c05_untranslated': ['C05', 'C07'],
     'm_c06_unsorted': ['C06', 'C15'],
-    'm_c08_pointer_tiebreak': ['C08', 'C02'],
     'm_c10_default_weight': ['C10'],
     'm_c11_rank0_only': ['C11'],
     'm_c12_lex_no_vertexset': ['C12', 'C14', 'C02'],
